@@ -116,7 +116,7 @@ func packetLiterals(fn *ssa.Function) []*pktLit {
 func init() {
 	Registry["C06"] = func(c *Ctx) {
 		p, r := c.P, c.R
-		r.NotDecided = append(r.NotDecided, "payload <= limit for all sizes (numeric threshold arithmetic); marker placement as a function of frame content")
+		r.NotDecided = append(r.NotDecided, "payload <= limit on the aggregation paths and in the encoders that do not use the ceiling-division helper (rtpav1, rtpvp8, rtpvp9, rtpmjpeg, rtpklv, rtplpcm, rtpmpegts); marker placement as a function of frame content")
 		r.Rule("C06/SEQ-PAIR", "every RTP packet literal of an encoder takes SequenceNumber from the encoder's counter, and between two consecutive packet literals (or a literal and the return) the counter is incremented exactly once; the counter is written nowhere else but Init", 24)
 		r.Rule("C06/HDR-FIELDS", "every packet literal has Version 2, the configured PayloadType (or the format-mandated static one) and the configured SSRC", 24)
 		r.Rule("C06/INIT-SEED", "Init seeds the counter from *InitialSequenceNumber after defaulting it, and defaults SSRC when nil, on every successful path", 15)
